@@ -281,16 +281,52 @@ fn noop_strategy(ctx: &Ctx) -> BoxedStrategy<NoopCase> {
         .boxed()
 }
 
+// ---------------------------------------------------------------------------
+// clips interleaved with layers: a layer group under >= 2 clips of both kinds (either order), judged by
+// C06's isolated-group reference (the clip in force limits both the drawing into the layer and its pop)
+
+fn layered_strategy(ctx: &Ctx) -> BoxedStrategy<super::c06::Case> {
+    let ctx = ctx.clone();
+    (3i32..=10, 3i32..=10)
+        .prop_flat_map(move |(w, h)| {
+            let mut d = Domain::exact(w, h);
+            d.layers = true;
+            d.max_depth = 3;
+            d.max_nodes = 3;
+            let rect = int_rect(w, h).prop_map(|(a, b, c, dd)| Op::PushClipRect(a, b, c, dd));
+            // a rect narrower than the surface with a non-zero origin, so that the layer is offset and narrow
+            let narrow = (0..w - 1, 0..h - 1).prop_flat_map(move |(x, y)| (Just(x), Just(y), x + 1..=w, y + 1..=h)).prop_map(|(a, b, c, dd)| Op::PushClipRect(a, b, c, dd));
+            let path = prop_oneof![grid_poly(w, h, false), pixel_rects_path(w, h)].prop_map(Op::PushClipPath);
+            let clips = prop_oneof![
+                (prop_oneof![rect.clone(), narrow.clone()], path.clone()).prop_map(|(a, b)| vec![a, b]),
+                (path.clone(), prop_oneof![rect.clone(), narrow.clone()]).prop_map(|(a, b)| vec![a, b]),
+                (narrow.clone(), path.clone(), rect.clone()).prop_map(|(a, b, c)| vec![a, b, c]),
+                (path.clone(), narrow, path).prop_map(|(a, b, c)| vec![a, b, c]),
+            ];
+            (Just((w, h)), init_pixels(w, h), clips, alpha_f(), blend_biased(), tree(&ctx, &d))
+        })
+        .prop_map(|((w, h), init, clips, op, bl, inner)| {
+            let mut node = Node::Layer(Fl(op), bl, inner);
+            for c in clips.into_iter().rev() {
+                node = Node::Clip(c, vec![node]);
+            }
+            super::c06::Case { w, h, init, nodes: vec![node] }
+        })
+        .boxed()
+}
+
 pub fn property(ctx: &Ctx) -> Property {
     let (c1, c2, c3) = (ctx.clone(), ctx.clone(), ctx.clone());
+    let c4 = ctx.clone();
     Property {
         id: "C05",
-        rule: "part stack: nested histories (depth <= 5) of push_clip_rect (inside, overlapping, disjoint, inverted, off-surface) and push_clip of quarter-grid polygons (exact coverage from the 4x4 model), quarter-pixel transform changes between pushes, with fill / fill_rect / mask / clear / draw_image_at draws (28 modes, all sources) after every change; after each draw every pixel is judged: outside any pushed rectangle unchanged; rect-only stacks bit-identical to the unclipped draw inside the intersection; with paths the compositor formula with clip coverage = product of all pushed path coverages (exact at 0 and full, +-(3+n)/255 otherwise). part order: the same 2-4 clips (clip rects and clip paths made of pixel-aligned rectangles, coverages exactly 0/255) pushed in two orders give bit-identical pixels for any draw. part noop: inserting balanced draw-free push..pop blocks changes no pixel. Non-trivial: a draw under live clips of both kinds, a draw after a pop, or an empty intersection of rectangles; distinct by hash of the case.",
-        assumptions: vec!["clip paths are quarter-grid polygons under quarter-pixel translations so that their coverage is known exactly (curved clip paths: C08)", "layers inside clip histories are covered by C06"],
+        rule: "part stack: nested histories (depth <= 5) of push_clip_rect (inside, overlapping, disjoint, inverted, off-surface) and push_clip of quarter-grid polygons (exact coverage from the 4x4 model), quarter-pixel transform changes between pushes, with fill / fill_rect / mask / clear / draw_image_at draws (28 modes, all sources) after every change; after each draw every pixel is judged: outside any pushed rectangle unchanged; rect-only stacks bit-identical to the unclipped draw inside the intersection; with paths the compositor formula with clip coverage = product of all pushed path coverages (exact at 0 and full, +-(3+n)/255 otherwise). part order: the same 2-4 clips (clip rects and clip paths made of pixel-aligned rectangles, coverages exactly 0/255) pushed in two orders give bit-identical pixels for any draw. part noop: inserting balanced draw-free push..pop blocks changes no pixel. part layers: a layer group (any opacity/blend, non-SrcOver draws inside) pushed under 2-3 clips of both kinds in every order, incl. rectangles narrower than the surface with a non-zero origin, judged by the isolated-group reference of C06. Non-trivial: a draw under live clips of both kinds, a draw after a pop, or an empty intersection of rectangles; distinct by hash of the case.",
+        assumptions: vec!["clip paths are quarter-grid polygons under quarter-pixel translations so that their coverage is known exactly (curved clip paths: C08)", "part layers reuses C06's oracle (isolated group on a separate surface) for clips interleaved with layers"],
         parts: vec![
             part("stack", 100_000, 1_500_000, move || strategy(&c1), check),
             part("order", 40_000, 600_000, move || order_strategy(&c2), check_order),
             part("noop", 30_000, 500_000, move || noop_strategy(&c3), check_noop),
+            part("layers", 30_000, 500_000, move || layered_strategy(&c4), super::c06::check),
         ],
         min_class_fraction: vec![("stack", "rect-after-path", 0.05), ("stack", "path-after-rect", 0.05), ("stack", "depth>=3", 0.05), ("stack", "draw-after-pop", 0.2), ("stack", "judged:path-clip-formula", 0.2), ("order", "reordered", 0.4)],
         panic_is_violation: false,
